@@ -62,6 +62,13 @@ func TestModelsAgainstStdlib(t *testing.T) {
 			}
 		}
 	}
+	const spaces = " \t\n\v\f\rx\xc2\x85\xa0\xe1\x9a\x80\xe2\x81\x9f\xa8\xaf\xe3\x8a\xf0\x9f"
+	for i := 0; i < 500000; i++ {
+		s := randStr(r, spaces, 7)
+		if StringsTrimSpace(s) != strings.TrimSpace(s) {
+			t.Fatalf("TrimSpace(%q): %q vs %q", s, StringsTrimSpace(s), strings.TrimSpace(s))
+		}
+	}
 	for _, d := range []string{"18446744073709551615", "18446744073709551616", "99999999999999999999", "00000000000000000000001", ""} {
 		v, ok := ParseUint10(d)
 		w, err := strconv.ParseUint(d, 10, 64)
